@@ -99,7 +99,7 @@ def unit_core(unit):
             tv = eng.fresh("TEMP", 24)
             for i in range(14):
                 a.cpu.regs.set(getattr(RN, f"TEMP{i}"), tv if i == tk else 0x010203 + i)
-            csl = eng.fresh_int("call_sub_level") if hasattr(eng, "fresh_int") and unit.get("math") else eng.fresh("call_sub_level", 16)
+            csl = eng.fresh("call_sub_level", 16)
             a.cpu.regs.call_sub_level = csl
             halted = eng.fresh_bool("halted")
             a.cpu.state.halted = halted
@@ -110,6 +110,8 @@ def unit_core(unit):
             a.instruction_count, a.cycle_count, a.call_depth = ic, cc, cd
             kbi = eng.fresh_bool("kb_irq_enabled")
             a._kb_irq_enabled = kbi
+            fast = eng.fresh_bool("fast_mode")
+            a.fast_mode = fast
             a.save_snapshot(ses.path)
             b = PE.PCE500Emulator(save_lcd_on_exit=False)
             b.load_snapshot(ses.path)
@@ -129,7 +131,8 @@ def unit_core(unit):
             P("restore:cycle_count", b.cycle_count == cc)
             P("restore:call_depth", b.call_depth == cd)
             P("restore:kb-irq-enabled", _bool_eq(b._kb_irq_enabled, kbi))
-            P("restore:pc-bookkeeping", core.and_(b._current_pc == a.cpu.regs.get(RN.PC), b._last_pc == a.cpu.regs.get(RN.PC)) if False else b._current_pc == a.cpu.regs.get(RN.PC),
+            P("restore:fast-mode", _bool_eq(b.fast_mode, fast), "step() takes a different path in fast mode")
+            P("restore:pc-bookkeeping", b._current_pc == a.cpu.regs.get(RN.PC),
               "the emulator's current-PC bookkeeping names the instruction to execute next")
         finally:
             ses.close()
@@ -282,7 +285,7 @@ def unit_memory(unit):
             _mem_config(a, "A", cfg)
             before = a.memory.external_memory.arr
             a.save_snapshot(ses.path)
-            eng.prove("save:does-not-modify-memory", z3.BoolVal(z3.eq(a.memory.external_memory.arr, before)) if True else None,
+            eng.prove("save:does-not-modify-memory", z3.BoolVal(z3.eq(a.memory.external_memory.arr, before)),
                       detail="taking a snapshot leaves the original's memory image untouched")
             b = PE.PCE500Emulator(save_lcd_on_exit=False)
             _mem_config(b, "B", cfg)
